@@ -97,7 +97,8 @@ def run_property(prop, tier, seed, jobs=None, only=None, verbose=False):
         for o in r["obls"]:
             # an unexpected exception / a non-number result invalidates every property the family serves
             escapes = prop in r["props"] and _re.search(r"/(no-other-exception|no-exception|returns-number|returns-expression)@", o["name"]) is not None
-            if prop in o["props"] or escapes or any(q in o["props"] and pred(o["name"]) and (not same_family or prop in r["props"])
+            if prop in o["props"] or escapes or any(q in o["props"] and pred(o["name"]) and ((same_family and prop in r["props"]) or
+                                                                                           (not same_family and _sp(r["family"])))
                                                     for q, pred, same_family, _sp in IMPORTS.get(prop, [])):
                 o["family"] = r["family"]
                 obls.append(o)
@@ -232,11 +233,19 @@ _memo = lambda name: _re.search(r"/memo:", name) is not None
 IMPORTS = {
     # property -> [(property the obligation is tagged with, name predicate, only from
     #               families that themselves serve this property)]
-    "C10": [("C09", lambda name: _re.search(r"memo|_reset_evaluation_cache|history\[", name) is not None, False, lambda fam: True)],
+    "C10": [("C09", lambda name: _re.search(r"memo|_reset_evaluation_cache|history\[", name) is not None, False, lambda fam: True),
+            # derivative objects too must keep answering like a fresh copy after as_expression()
+            ("C06", lambda name: True, False, lambda fam: _re.match(r"(route\[|Partial\.at\[|Derivative\.at\[|Differential[\[(]|LocatedDifferential\.component)", fam) is not None),
+            ("C07", lambda name: True, False, lambda fam: _re.match(r"(route\[|Partial\.at\[|Derivative\.at\[|Differential[\[(]|LocatedDifferential\.component)", fam) is not None)],
     # ... and conversely C09's families describe an existing object by what its constructor
     # stored: that is only right if nothing rewrites structural fields or containers afterwards,
     # which is the frame condition of C10 (static sites + the heap log of the paths C09 explores)
-    "C09": [("C10", lambda name: name.startswith("frame:"), False, lambda fam: fam == "frame-analysis"),
+    # a derivative object is late, early, or late-and-switched by an earlier as_expression():
+    # which of these it is *is* its history, so "the same answer whatever the history" for these
+    # objects is that every variant meets the one route contract (the C06 / C07 obligations)
+    "C09": [("C06", lambda name: True, False, lambda fam: _re.match(r"(route\[|Partial\.at\[|Derivative\.at\[|Differential[\[(]|LocatedDifferential\.component)", fam) is not None),
+            ("C07", lambda name: True, False, lambda fam: _re.match(r"(route\[|Partial\.at\[|Derivative\.at\[|Differential[\[(]|LocatedDifferential\.component)", fam) is not None),
+            ("C10", lambda name: name.startswith("frame/"), False, lambda fam: fam == "frame-analysis"),
             ("C10", lambda name: "/frame:" in name, True, lambda fam: False)],
     # the memo pre-condition of the evaluation-family methods is what makes the value / raise
     # post-conditions of the public entries true on every history: import it where it is used
@@ -267,6 +276,13 @@ IMPORTS = {
            ("C09", lambda name: "._reset_evaluation_cache/" in name, False, lambda fam: fam.endswith("._reset_evaluation_cache"))]
        for p in ("C02", "C04", "C05", "C07", "C14")},
 }
+# Every property that speaks about "the expression" (what it evaluates to, what its derivatives
+# are, what it equals, how it prints) is proved for objects described by what their constructor
+# stored: each of these proofs rests on the frame condition of C10 - nothing rewrites a structural
+# field or a container of an existing object - so the static frame sites are imported into all of them.
+for _p in ("C01", "C02", "C03", "C04", "C05", "C06", "C07", "C08", "C12", "C13", "C14"):
+    IMPORTS.setdefault(_p, [])
+    IMPORTS[_p] = list(IMPORTS[_p]) + [("C10", lambda name: name.startswith("frame/"), False, lambda fam: fam == "frame-analysis")]
 MAX_REPLAYS = 12
 MIN_OBLIGATIONS = {}
 EXTRA_ASSUMPTIONS = {}
